@@ -1,8 +1,9 @@
 /-
-C01 — property theorems (only). Model: `HydroVerif/Model/C01.lean`; real instance and helper lemmas:
-`HydroVerif/Lemmas/C01Real.lean`, `HydroVerif/Lemmas/C01Sliver.lean`.
+C01 — property theorems (only). Models: `HydroVerif/Model/C01.lean` (formulas), `HydroVerif/Model/C01Obj.lean` (the
+transform object); real instance and helper lemmas: `HydroVerif/Lemmas/C01Real.lean`, `HydroVerif/Lemmas/C01Sliver.lean`,
+`HydroVerif/Lemmas/C01Obj.lean`; rounded instance: `HydroVerif/Lemmas/C01Rnd.lean`.
 
-Every statement is over ℝ, for every parameter vector inside the declared bounds, every branch of the formulas, arrays
+Every statement is over ℝ (section `Rounded`: over `Rd M`, the rounded instance), for every parameter vector inside the declared bounds, every branch of the formulas, arrays
 of any length and any history of the object (`Option.bind` threads the NaN of `np.where(cond, v, nan)`).
 Every model function named below is executed by `Drivers/C01.lean` and compared with the real code.
 
@@ -18,7 +19,7 @@ Clause → theorems → what remains outside
     - BoxCox2sym.backward_forward (nu > 0) + backward_forward_nu_zero
     - YeoJohnson.backward_forward_near (all x, sliver included, 1e-18) + backward_forward / _of_side / _of_nonpos / _lam_one (exact)
     - LogSinh.backward_forward
-    - Reciprocal.backward_forward (every x > -nu; repaired guard y < 0)
+    - Reciprocal.backward_forward (every x > -nu; repaired guard y < 0) + forward_neg + backward_nan_of_nonneg
     - Sinh.backward_forward
     - Manly.backward_forward
     - Softmax.backward_forward / backwardM_forwardM (rows and 2-D arrays of any size)
@@ -40,11 +41,16 @@ Clause → theorems → what remains outside
     - examples: lamBig 0 / 1e-10 / 1.1e-10 / 0.5, isclose0 / isclose2 at 0, 1e-7, 2, 2.0001
     outside: nothing over the reals; in floating point 1e-10 < |lam| <= 1e-9 loses up to ~4e-6 (known finding */power/lam_just_above_switch)
 
-* objects: parameters / constants re-assigned between calls, any call order (histories); constants unset
+* objects: parameters / constants re-assigned between calls by any route, refused assignments (fault paths), reset, constants unset, any call order (histories)
     - BoxCox1lam/BoxCox1nu.state_forward_eq, state_backward_eq, state_backward_forward, state_array_backward_forward (from ANY inner state), state_unset / state_array_unset
     - BoxCox2sym.state_forward_eq / state_backward_eq / state_array_backward_forward
     - LogSinh/Manly.state_set, state_unset, state_array_backward_forward, state_array_unset
-    outside: Vector clipping of assigned values (C12): the harness reads the values back from the object
+    - object model (Model/C01Obj: mkObj, TObj.step, TObj.run): mkObj_inv (every accepting constructor establishes the invariant), TObj.step_inv / TObj.run_inv (ANY operation list keeps: one value per slot, parameters numbers inside their declared bounds, constants inside bounds or unset; class, bounds, NaN policy, mininu, base never change), TObj.run_append
+    - TObj.step_refused_unchanged: a refused assignment (NaN into a parameter by attribute / item / vector item, a vector holding a NaN or of the wrong length, an unknown key) or a call that raises returns the object unchanged; VSpec.setValues_rejects / VSpec.setName_rejects say what is refused; mkObj_rejects / mkObj_log_rejects the constructor validation
+    - setAt_get / TObj.getItem_setItem (an accepted t[k] = x reads back as x clipped to the bounds of k, every other key unchanged), TObj.reset_done, TObj.call_frame (a call never changes a parameter or constant)
+    - X.history for X = Logit, Log, BoxCox2, BoxCox1lam, BoxCox1nu, BoxCox2sym, YeoJohnson, LogSinh, Reciprocal, Sinh, Manly: after ANY history from the constructor the parameters satisfy X.admissible / the declared bounds and a call returns the closed formula at the CURRENT values (for the delegating classes: the inner assignment is accepted and stores [nu, lam] unclipped, whatever the inner object held)
+    - Manly / Sinh / LogSinh / BoxCox2 / BoxCox1lam .history_roundtrip: forward then backward ON THE OBJECT returns the array after any history, with no hypothesis on the parameters
+    outside: +-inf or non-numeric values assigned to a parameter; writes into the live array returned by params.values (aliasing by design); the hitbounds flags / clone / from_dict of Vector (C12); attributes such as t.mininu or t.BC overwritten by the caller
 
 * all float64 arrays (1-D; 2-D rows for Softmax): the method acts elementwise / row-wise
     - onArray_roundtrip (arrays of any length)
@@ -56,7 +62,9 @@ Clause → theorems → what remains outside
 * get_transform(name, **params) gives the instance with those settings
     - route_ctor, route_param, route_const, route_ignored (every catalogue class, every keyword)
     - lookupClass_known, lookupClass_unknown
-    outside: the effect of the assignment itself (Vector, C12); checked differentially against direct attribute setting
+    - getTransform_eq_run / applyKw_eq_run: get_transform(name, **kw) = the constructor followed by the attribute assignments t.k = v in keyword order (ignored keywords ignored by both), and the result satisfies the invariant
+    - Cls.names_eq_catalogue, mkObj_names: the object model and the keyword catalogue name the same classes, parameters and constants
+    outside: nothing (the assignments are the object model's; compared with the real get_transform on `getkw` requests)
 
 * backward_censored (observe_at)
     - backwardCensored_ge
@@ -66,10 +74,20 @@ Clause → theorems → what remains outside
 * to a relative accuracy of 1e-6 wherever the mapping is well conditioned (float64)
     - (exact-arithmetic part) all of the above
     - BoxCox2.float_roundtrip_statement (stated, not provable: Lean Float operations are opaque)
-    outside: IEEE rounding and numpy's transcendental functions: carried by the correspondence (Float instance of the model = numpy within the propagated 1e-13 bound, every element) and by the 1e-6 oracle inside the documented conditioning regions
+    - rounded instance Rd M (Lemmas/C01Rnd: every operation followed by an arbitrary monotone rounding with rnd 0 = 0, rnd 1 = 1, rnd(-x) = -rnd x; any exp >= 0) - exact statements about the floating-point code: Softmax.rounded_backward_range (entries of backward in [0, 1]), Softmax.rounded_forward_backward_not_negative (forward never refuses a backward image for a negative entry), BoxCox2sym.rounded_zero / rounded_odd (0 -> 0 and f(-x) = -f(x) exactly, both directions), backwardCensored_ge_rounded
+    outside: IEEE rounding of the values themselves and numpy's transcendental functions: carried by the correspondence (Float instance of the model = numpy within the propagated 1e-13 bound, every element) and by the 1e-6 oracle inside the documented conditioning regions; the rounded statements are also checked on the real code
+
+* every admissible setting of its parameters and constants (hypotheses of the theorems vs. the code's own guards)
+    - X.admissible is discharged for every reachable object by X.history (Vector clipping + NaN refusal + constructor validation)
+    - Log.history: an accepted base is > 0; Log.base_one_counterexample: base = 1 (accepted by the code, log base = 0) is not invertible - the hypothesis Log.bf p != 0 is necessary
+    - BoxCox2sym.nu_zero_counterexample: nu = 0 on the logarithm branch is not invertible - the hypothesis nu > 0 (or lam > EPS) is necessary
+    outside: the counterexamples are in the model's arithmetic (x/0 = 0, log 0 = 0); the real code returns +-inf / NaN there (probed by the history stream with base = 1 and by BoxCox2sym configurations with nu = 0, not judged)
+
 -/
 import HydroVerif.Lemmas.C01Real
 import HydroVerif.Lemmas.C01Sliver
+import HydroVerif.Lemmas.C01Obj
+import HydroVerif.Lemmas.C01Rnd
 
 namespace HydroVerif.C01
 open Real
@@ -1112,6 +1130,969 @@ theorem lookupClass_unknown (name : String) (h : ∀ c ∈ catalogue, c.name ≠
     simpa using h c hc
   rw [this]
 
+/-! ### the transform OBJECT (Model/C01Obj): constructors, every way of assigning, refused assignments, histories
+
+`TObj.step` is one public operation (assignment by attribute / item / vector item / whole vector, `reset`, a method
+call); `TObj.run` a history. What is proved: constructors establish, and every operation keeps, the invariant "one value
+per slot, every parameter a number inside its declared bounds, every constant inside its bounds or unset"; a REFUSED
+operation returns the object unchanged; a call changes nothing but the inner BoxCox2 of the delegating classes, and its
+result is the closed formula at the CURRENT parameter values. Hence, for ANY history — refused assignments included — the
+`admissible` hypotheses of the round-trip theorems hold and the round trip holds on the object (`X.history*`). -/
+
+/-- every constructor that accepts its options builds an object that satisfies the invariant -/
+theorem mkObj_inv (c : Cls) (mininu minilam : ℝ) (base : Option ℝ) (o : TObj ℝ)
+    (h : mkObj c mininu minilam base = .ok o) : o.Inv := by
+  have hl3 : lamBoundsOk minilam = true → minilam ≤ 3 := by
+    intro hb
+    unfold lamBoundsOk at hb
+    simp only [Bool.and_eq_true, Bool.not_eq_true', decide_eq_false_iff_not, not_lt] at hb
+    have := hb.2
+    unfold eps at this
+    norm_num at this ⊢
+    linarith
+  have hclip : ∀ ml : ℝ, ml ≤ 3 → inBounds (⟨"lam", some (clipv (some ml) (some 3.0) 1), some ml, some 3.0⟩ : SlotSpec ℝ)
+      (clipv (some ml) (some 3.0) 1) := by
+    intro ml hml
+    exact clipv_inBounds ⟨"lam", some (clipv (some ml) (some 3.0) 1), some ml, some 3.0⟩
+      (by intro l h hl hh; cases hl; cases hh; norm_num; linarith) 1
+  have fin : ∀ (sp cp ip : VSpec ℝ) (pv cv iv : List (Option ℝ)) (mn : ℝ) (b : Option ℝ) (cc : Cls),
+      sp.WF → cp.WF → ip.WF → sp.Ok pv → cp.Ok cv → ip.Ok iv → (⟨cc, sp, cp, pv, cv, ip, iv, mn, b⟩ : TObj ℝ).Inv :=
+    fun _ _ _ _ _ _ _ _ _ a b c d e f => ⟨a, b, c, d, e, f⟩
+  have wf0 : (noVec : VSpec ℝ).WF := by intro s hs; simp [noVec] at hs
+  have ok0 : (noVec : VSpec ℝ).Ok [] := by simp [VSpec.Ok, noVec, okVals]
+  have hbcw : minilam ≤ 3 → (bc2Spec mininu minilam).WF := by
+    intro h3; simp [VSpec.WF, bc2Spec]; norm_num; linarith
+  have hbco : minilam ≤ 3 → (bc2Spec mininu minilam).Ok (bc2Spec mininu minilam).dflts := by
+    intro h3
+    simp [VSpec.Ok, VSpec.dflts, okVals, okSlot, bc2Spec, inBounds]
+    have := hclip minilam h3
+    simp [inBounds] at this
+    exact this
+  cases c <;> simp only [mkObj] at h
+  case identity =>
+    cases h; exact fin _ _ _ _ _ _ _ _ _ (by intro s hs; simp at hs) wf0 wf0 (by simp [VSpec.Ok, okVals]) ok0 ok0
+  case softmax =>
+    cases h; exact fin _ _ _ _ _ _ _ _ _ (by intro s hs; simp at hs) wf0 wf0 (by simp [VSpec.Ok, okVals]) ok0 ok0
+  case logit =>
+    cases h
+    refine fin _ _ _ _ _ _ _ _ _ ?_ wf0 wf0 ?_ ok0 ok0
+    · simp [VSpec.WF]; norm_num
+    · simp [VSpec.Ok, okVals, okSlot, inBounds]; norm_num
+  case boxcox2 =>
+    split_ifs at h with hb
+    cases h
+    have h3 := hl3 hb
+    refine fin _ _ _ _ _ _ _ _ _ ?_ wf0 wf0 ?_ ok0 ok0
+    · simp [VSpec.WF, bc2Spec]; norm_num; linarith
+    · simp [VSpec.Ok, okVals, okSlot, bc2Spec, inBounds]
+      have := hclip minilam h3
+      simp [inBounds] at this
+      exact this
+  case boxcox2sym =>
+    split_ifs at h with hb
+    cases h
+    have h3 := hl3 hb
+    exact fin _ _ _ _ _ _ _ _ _ (hbcw h3) wf0 (hbcw h3) (hbco h3) ok0 (hbco h3)
+  case boxcox1lam =>
+    split_ifs at h with hb
+    cases h
+    have h3 := hl3 hb
+    refine fin _ _ _ _ _ _ _ _ _ ?_ ?_ (hbcw h3) ?_ ?_ (hbco h3)
+    · simp [VSpec.WF]; norm_num; linarith
+    · simp [VSpec.WF]
+    · simp [VSpec.Ok, okVals, okSlot, inBounds]
+      have := hclip minilam h3
+      simp [inBounds] at this
+      exact this
+    · simp [VSpec.Ok, okVals, okSlot]
+  case boxcox1nu =>
+    split_ifs at h with hb
+    cases h
+    have h3 := hl3 hb
+    refine fin _ _ _ _ _ _ _ _ _ ?_ ?_ (hbcw h3) ?_ ?_ (hbco h3)
+    · simp [VSpec.WF]
+    · simp [VSpec.WF]; norm_num; linarith
+    · simp [VSpec.Ok, okVals, okSlot, inBounds]
+    · simp [VSpec.Ok, okVals, okSlot]
+  case log =>
+    cases base with
+    | none =>
+      cases h
+      refine fin _ _ _ _ _ _ _ _ _ ?_ wf0 wf0 ?_ ok0 ok0
+      · simp [VSpec.WF]
+      · simp [VSpec.Ok, okVals, okSlot, inBounds]
+    | some b =>
+      simp only at h
+      split_ifs at h
+      cases h
+      refine fin _ _ _ _ _ _ _ _ _ ?_ wf0 wf0 ?_ ok0 ok0
+      · simp [VSpec.WF]
+      · simp [VSpec.Ok, okVals, okSlot, inBounds]
+  case reciprocal =>
+    cases h
+    refine fin _ _ _ _ _ _ _ _ _ ?_ wf0 wf0 ?_ ok0 ok0
+    · simp [VSpec.WF]
+    · simp [VSpec.Ok, okVals, okSlot, inBounds]
+  case yeojohnson =>
+    cases h
+    refine fin _ _ _ _ _ _ _ _ _ ?_ wf0 wf0 ?_ ok0 ok0
+    · simp [VSpec.WF]; norm_num
+    · simp [VSpec.Ok, okVals, okSlot, inBounds]; norm_num
+  case sinh =>
+    cases h
+    refine fin _ _ _ _ _ _ _ _ _ ?_ wf0 wf0 ?_ ok0 ok0
+    · simp [VSpec.WF]
+    · simp [VSpec.Ok, okVals, okSlot, inBounds]; norm_num
+  case logsinh =>
+    cases h
+    refine fin _ _ _ _ _ _ _ _ _ ?_ ?_ wf0 ?_ ?_ ok0
+    · simp [VSpec.WF]; norm_num
+    · simp [VSpec.WF]
+    · simp [VSpec.Ok, okVals, okSlot, inBounds]; norm_num
+    · simp [VSpec.Ok, okVals, okSlot]
+  case manly =>
+    cases h
+    refine fin _ _ _ _ _ _ _ _ _ ?_ ?_ wf0 ?_ ?_ ok0
+    · simp [VSpec.WF]; norm_num
+    · simp [VSpec.WF]
+    · simp [VSpec.Ok, okVals, okSlot, inBounds]; norm_num
+    · simp [VSpec.Ok, okVals, okSlot]
+
+/-- constructor validation: `minilam < -3`, or a default `lam = 1` more than EPS below `minilam`, is refused by the four
+Box-Cox classes; a non-positive logarithm base by `Log` -/
+theorem mkObj_rejects (mininu minilam : ℝ) (base : Option ℝ) (h : minilam < -3 ∨ 1 + eps < minilam) :
+    mkObj .boxcox2 mininu minilam base = .error .badCtor ∧ mkObj .boxcox2sym mininu minilam base = .error .badCtor ∧
+    mkObj .boxcox1lam mininu minilam base = .error .badCtor ∧ mkObj .boxcox1nu mininu minilam base = .error .badCtor := by
+  have hb : lamBoundsOk minilam = false := by
+    unfold lamBoundsOk
+    rcases h with h | h
+    · have : minilam < -3.0 := by norm_num; exact h
+      simp [this]
+    · have : 1 < minilam - eps := by linarith
+      simp [this]
+  simp [mkObj, hb]
+
+theorem mkObj_log_rejects (mininu minilam b : ℝ) (h : b ≤ 0) : mkObj .log mininu minilam (some b) = .error .badCtor := by
+  simp [mkObj, h]
+
+/-- what an assignment refuses: a vector of the wrong length, a NaN where the Vector does not accept NaN -/
+theorem VSpec.setValues_rejects (sp : VSpec ℝ) (vs : List (Option ℝ))
+    (h : vs.length ≠ sp.slots.length ∨ (sp.acceptNan = false ∧ none ∈ vs)) : ∃ e, sp.setValues vs = .error e := by
+  unfold VSpec.setValues
+  by_cases h1 : vs.length ≠ sp.slots.length
+  · exact ⟨_, by rw [if_pos h1]⟩
+  · rw [if_neg h1]
+    rcases h with h | ⟨ha, hn⟩
+    · exact absurd h h1
+    · have : (!sp.acceptNan && vs.any Option.isNone) = true := by
+        simp only [ha, Bool.not_false, Bool.true_and, List.any_eq_true]
+        exact ⟨none, hn, rfl⟩
+      exact ⟨_, by rw [if_pos this]⟩
+
+theorem VSpec.setName_rejects (sp : VSpec ℝ) (vals : List (Option ℝ)) (k : String) (x : Option ℝ)
+    (h : k ∉ sp.names ∨ (sp.acceptNan = false ∧ x = none)) : ∃ e, sp.setName vals k x = .error e := by
+  unfold VSpec.setName
+  by_cases h1 : (!sp.names.contains k) = true
+  · exact ⟨_, by rw [if_pos h1]⟩
+  · rw [if_neg h1]
+    rcases h with h | ⟨ha, hx⟩
+    · exfalso; apply h1; simpa using h
+    · have : (!sp.acceptNan && x.isNone) = true := by simp [ha, hx]
+      exact ⟨_, by rw [if_pos this]⟩
+
+/-- what an accepted assignment stores: the value itself when it is inside the bounds (clipped otherwise: `setAt`),
+and nothing else changes -/
+theorem setAt_get (k : String) (x : ℝ) : ∀ (slots : List (SlotSpec ℝ)) (vals l : List (Option ℝ)),
+    setAt slots vals k (some x) = some l →
+    (∃ s ∈ slots, s.name = k ∧ getAt slots l k = some (clipv s.lo s.hi x)) ∧
+    ∀ k', k' ≠ k → getAt slots l k' = getAt slots vals k'
+  | [], [], _, h => by simp [setAt] at h
+  | [], _ :: _, _, h => by simp [setAt] at h
+  | _ :: _, [], _, h => by simp [setAt] at h
+  | s :: ss, v :: vs, l, h => by
+    simp only [setAt] at h
+    split_ifs at h with hk
+    · cases h
+      refine ⟨⟨s, List.mem_cons_self .., hk, by simp [getAt, hk, clipOpt]⟩, ?_⟩
+      intro k' hk'
+      have : ¬ s.name = k' := fun h' => hk' (h'.symm.trans hk)
+      simp [getAt, this]
+    · rcases hr : setAt ss vs k (some x) with _ | l'
+      · simp [hr] at h
+      · simp only [hr, Option.map_some, Option.some.injEq] at h
+        subst h
+        obtain ⟨⟨s', hs', hn', hg'⟩, hf⟩ := setAt_get k x ss vs l' hr
+        refine ⟨⟨s', List.mem_cons_of_mem _ hs', hn', by simp [getAt, hk, hg']⟩, ?_⟩
+        intro k' hk'
+        by_cases hsk : s.name = k'
+        · simp [getAt, hsk]
+        · simp [getAt, hsk, hf k' hk']
+
+/-- a REFUSED operation — an assignment that raises (NaN into a parameter by any route, a vector of the wrong length or
+holding a NaN next to valid values, an unknown key) or a call that raises (constant unset) — returns the object unchanged:
+the last accepted setting stays in place -/
+theorem TObj.step_refused_unchanged (o : TObj ℝ) (op : TOp ℝ) (h1 : (o.step op).2 ≠ .done)
+    (h2 : ∀ vals, (o.step op).2 ≠ .values vals) : (o.step op).1 = o := by
+  have key : ∀ r : TObj ℝ × Reply ℝ, (∀ e, r.2 = .rejected e → r.1 = o) → (∀ e, r.2 ≠ .raised e) → r.2 ≠ .done →
+      (∀ vals, r.2 ≠ .values vals) → r.1 = o := by
+    intro r hr hne hd hv
+    rcases hrep : r.2 with _ | e | vals | e
+    · exact absurd hrep hd
+    · exact hr e hrep
+    · exact absurd hrep (hv vals)
+    · exact absurd hrep (hne e)
+  unfold TObj.step at h1 h2 ⊢
+  cases op with
+  | setAttr k v =>
+    simp only [TObj.stepWith] at h1 h2 ⊢
+    split_ifs at h1 h2 ⊢
+    · exact key _ (TObj.setP_rejected o _) (TObj.setP_not_raised o _) h1 h2
+    · exact key _ (TObj.setC_rejected o _) (TObj.setC_not_raised o _) h1 h2
+    · rfl
+  | setItem k v =>
+    simp only [TObj.stepWith] at h1 h2 ⊢
+    split_ifs at h1 h2 ⊢
+    · exact key _ (TObj.setP_rejected o _) (TObj.setP_not_raised o _) h1 h2
+    · exact key _ (TObj.setP_rejected o _) (TObj.setP_not_raised o _) h1 h2
+    · exact key _ (TObj.setC_rejected o _) (TObj.setC_not_raised o _) h1 h2
+  | setPItem k v => exact key _ (TObj.setP_rejected o _) (TObj.setP_not_raised o _) h1 h2
+  | setCItem k v => exact key _ (TObj.setC_rejected o _) (TObj.setC_not_raised o _) h1 h2
+  | setPValues vs => exact key _ (TObj.setP_rejected o _) (TObj.setP_not_raised o _) h1 h2
+  | setCValues vs => exact key _ (TObj.setC_rejected o _) (TObj.setC_not_raised o _) h1 h2
+  | reset => exact key _ (TObj.setP_rejected o _) (TObj.setP_not_raised o _) h1 h2
+  | call m c xs => exact TObj.evalWith_refused _ o m c xs h2
+
+/-- every operation keeps the invariant, and never changes the class, the bounds, the NaN policy, `mininu`, `base` -/
+theorem TObj.step_inv (o : TObj ℝ) (op : TOp ℝ) (h : o.Inv) : (o.step op).1.Inv ∧ o.sameSpec (o.step op).1 :=
+  ⟨TObj.stepWith_inv _ o op h, TObj.stepWith_spec _ o op⟩
+
+/-- histories: after ANY list of operations (accepted, refused, calls, in any order) the invariant holds -/
+theorem TObj.run_inv (o : TObj ℝ) (ops : List (TOp ℝ)) (h : o.Inv) : (o.run ops).1.Inv ∧ o.sameSpec (o.run ops).1 :=
+  ⟨TObj.runWith_inv _ ops o h, TObj.runWith_spec _ ops o⟩
+
+/-- a history is its operations one after the other, and replies one to one -/
+theorem TObj.run_append (o : TObj ℝ) (ops ops' : List (TOp ℝ)) :
+    o.run (ops ++ ops') = ((TObj.run (o.run ops).1 ops').1, (o.run ops).2 ++ (TObj.run (o.run ops).1 ops').2) := by
+  unfold TObj.run
+  induction ops generalizing o with
+  | nil => simp [TObj.runWith]
+  | cons op ops ih => simp only [List.cons_append, TObj.runWith, ih]
+
+/-- a method call never changes a parameter or a constant -/
+theorem TObj.call_frame (o : TObj ℝ) (m : Method) (c : ℝ) (xs : List ℝ) :
+    (o.step (.call m c xs)).1.pvals = o.pvals ∧ (o.step (.call m c xs)).1.cvals = o.cvals :=
+  TObj.evalWith_frame _ o m c xs
+
+/-- `reset` is accepted whenever the defaults are inside the bounds (every constructor, `mkObj_inv`), and stores them -/
+theorem TObj.reset_done (o : TObj ℝ) (hd : o.pspec.Ok o.pspec.dflts) (hn : ∀ v ∈ o.pspec.dflts, v ≠ none) :
+    o.step .reset = ({ o with pvals := o.pspec.dflts }, .done) := by
+  simp only [TObj.step, TObj.stepWith, TObj.setP, assign, VSpec.setValues_of_ok o.pspec _ hd hn]
+
+/-! #### per class: after ANY history the parameters are admissible and a call is the closed formula at the current
+values (the object's `admissible` hypotheses are discharged from the Vector's own clipping and NaN refusal) -/
+
+/-- Manly -/
+theorem Manly.history (mininu minilam : ℝ) (base : Option ℝ) (o0 : TObj ℝ)
+    (h0 : mkObj .manly mininu minilam base = .ok o0) (ops : List (TOp ℝ)) :
+    ∃ lam : ℝ, ∃ xm : Option ℝ, (o0.run ops).1.pvals = [some lam] ∧ (o0.run ops).1.cvals = [xm] ∧
+      (∀ x, xm = some x → Manly.admissible ⟨lam, x⟩) ∧
+      ∀ m c xs, (o0.run ops).1.step (.call m c xs) = ((o0.run ops).1,
+        match xm with
+        | none => Reply.raised .xmaxUnset
+        | some x => .values (applyM backwardCensored m (Manly.forward ⟨lam, x⟩) (Manly.backward ⟨lam, x⟩)
+            (Manly.jacobian ⟨lam, x⟩) c xs)) := by
+  have hinv := TObj.runWith_inv backwardCensored ops o0 (mkObj_inv _ _ _ _ _ h0)
+  have hsp := TObj.runWith_spec backwardCensored ops o0
+  simp only [mkObj] at h0
+  cases h0
+  unfold TObj.run
+  generalize (TObj.runWith backwardCensored _ ops).1 = o at hinv hsp ⊢
+  obtain ⟨hcls, hps, hcs, -, -, -⟩ := hsp
+  obtain ⟨-, -, -, hpo, hco, -⟩ := hinv
+  simp only at hcls hps hcs
+  rw [hps] at hpo
+  rw [hcs] at hco
+  simp only [VSpec.Ok, okVals_cons, okVals_nil, okSlot_false, okSlot_true] at hpo hco
+  obtain ⟨v, rest, hpv, ⟨lam, rfl, hb⟩, rfl⟩ := hpo
+  obtain ⟨xm, rest', hcv, hxm, rfl⟩ := hco
+  refine ⟨lam, xm, hpv, hcv, ?_, ?_⟩
+  · intro x hx
+    have := hxm x hx
+    simp [inBounds] at hb this
+    refine ⟨by norm_num at hb ⊢; linarith [hb.1], by norm_num at hb ⊢; linarith [hb.2], this⟩
+  · intro m c xs
+    simp only [TObj.step, TObj.stepWith, TObj.evalWith, hcls, hpv, hcv]
+    cases xm <;> rfl
+
+/-- Manly, on the object, for any history: `forward` then `backward` returns the array (no hypothesis on the parameters:
+they are admissible by construction); with `xmax` unset both calls raise -/
+theorem Manly.history_roundtrip (mininu minilam : ℝ) (base : Option ℝ) (o0 : TObj ℝ)
+    (h0 : mkObj .manly mininu minilam base = .ok o0) (ops : List (TOp ℝ)) (xs : List ℝ) :
+    ((o0.run ops).1.cvals = [none] ∧ ((o0.run ops).1.step (.call .fwd 0 xs)).2 = .raised .xmaxUnset) ∨
+    ∃ ys, (o0.run ops).1.step (.call .fwd 0 xs) = ((o0.run ops).1, .values (ys.map some)) ∧
+      (o0.run ops).1.step (.call .bwd 0 ys) = ((o0.run ops).1, .values (xs.map some)) := by
+  obtain ⟨lam, xm, -, hcv, hadm, hcall⟩ := Manly.history mininu minilam base o0 h0 ops
+  cases xm with
+  | none => left; exact ⟨hcv, by rw [hcall]⟩
+  | some x =>
+    right
+    have hp := hadm x rfl
+    refine ⟨xs.map (Manly.fwd ⟨lam, x⟩), ?_, ?_⟩
+    · rw [hcall]; simp [applyM, onArray, Manly.forward, List.map_map, Function.comp_def]
+    · rw [hcall]
+      simp only [applyM, onArray, List.map_map]
+      congr 2
+      apply List.map_congr_left
+      intro a _
+      have := Manly.backward_forward ⟨lam, x⟩ a hp
+      simpa [Manly.forward] using this
+
+/-- LogSinh -/
+theorem LogSinh.history (mininu minilam : ℝ) (base : Option ℝ) (o0 : TObj ℝ)
+    (h0 : mkObj .logsinh mininu minilam base = .ok o0) (ops : List (TOp ℝ)) :
+    ∃ loga logb : ℝ, ∃ xm : Option ℝ, (o0.run ops).1.pvals = [some loga, some logb] ∧ (o0.run ops).1.cvals = [xm] ∧
+      (∀ x, xm = some x → LogSinh.admissible ⟨loga, logb, x⟩) ∧
+      ∀ m c xs, (o0.run ops).1.step (.call m c xs) = ((o0.run ops).1,
+        match xm with
+        | none => Reply.raised .xmaxUnset
+        | some x => .values (applyM backwardCensored m (LogSinh.forward ⟨loga, logb, x⟩) (LogSinh.backward ⟨loga, logb, x⟩)
+            (LogSinh.jacobian ⟨loga, logb, x⟩) c xs)) := by
+  have hinv := TObj.runWith_inv backwardCensored ops o0 (mkObj_inv _ _ _ _ _ h0)
+  have hsp := TObj.runWith_spec backwardCensored ops o0
+  simp only [mkObj] at h0
+  cases h0
+  unfold TObj.run
+  generalize (TObj.runWith backwardCensored _ ops).1 = o at hinv hsp ⊢
+  obtain ⟨hcls, hps, hcs, -, -, -⟩ := hsp
+  obtain ⟨-, -, -, hpo, hco, -⟩ := hinv
+  simp only at hcls hps hcs
+  rw [hps] at hpo
+  rw [hcs] at hco
+  simp only [VSpec.Ok, okVals_cons, okVals_nil, okSlot_false, okSlot_true] at hpo hco
+  obtain ⟨v, rest, hpv, ⟨loga, rfl, hb1⟩, v2, rest2, rfl, ⟨logb, rfl, hb2⟩, rfl⟩ := hpo
+  obtain ⟨xm, rest', hcv, hxm, rfl⟩ := hco
+  refine ⟨loga, logb, xm, hpv, hcv, ?_, ?_⟩
+  · intro x hx
+    have := hxm x hx
+    simp [inBounds] at hb1 hb2 this
+    refine ⟨?_, ?_, ?_, ?_, this⟩
+    · have := hb1.1; norm_num at this ⊢; linarith
+    · exact hb1.2
+    · have := hb2.1; norm_num at this ⊢; linarith
+    · have := hb2.2; norm_num at this ⊢; linarith
+  · intro m c xs
+    simp only [TObj.step, TObj.stepWith, TObj.evalWith, hcls, hpv, hcv]
+    cases xm <;> rfl
+
+/-- LogSinh on the object, any history: arrays inside the guard are recovered -/
+theorem LogSinh.history_roundtrip (mininu minilam : ℝ) (base : Option ℝ) (o0 : TObj ℝ)
+    (h0 : mkObj .logsinh mininu minilam base = .ok o0) (ops : List (TOp ℝ)) (xs : List ℝ) (loga logb xm : ℝ)
+    (hp : (o0.run ops).1.pvals = [some loga, some logb]) (hc : (o0.run ops).1.cvals = [some xm])
+    (hx : ∀ x ∈ xs, LogSinh.dom ⟨loga, logb, xm⟩ x) :
+    ∃ ys, (o0.run ops).1.step (.call .fwd 0 xs) = ((o0.run ops).1, .values (ys.map some)) ∧
+      (o0.run ops).1.step (.call .bwd 0 ys) = ((o0.run ops).1, .values (xs.map some)) := by
+  obtain ⟨a, b, x', hpv, hcv, hadm, hcall⟩ := LogSinh.history mininu minilam base o0 h0 ops
+  rw [hp] at hpv
+  rw [hc] at hcv
+  simp only [List.cons.injEq, Option.some.injEq, and_true] at hpv hcv
+  obtain ⟨rfl, rfl⟩ := hpv
+  subst hcv
+  have hadm' := hadm xm rfl
+  refine ⟨xs.map (LogSinh.fwd ⟨loga, logb, xm⟩), ?_, ?_⟩
+  · rw [hcall]
+    simp only [applyM, onArray, List.map_map]
+    congr 2
+    apply List.map_congr_left
+    intro a ha
+    have hd : LogSinh.inDom ⟨loga, logb, xm⟩ a = true := hx a ha
+    simp [LogSinh.forward, guard, hd]
+  · rw [hcall]
+    simp only [applyM, onArray, List.map_map]
+    congr 2
+    apply List.map_congr_left
+    intro a ha
+    have hd : LogSinh.inDom ⟨loga, logb, xm⟩ a = true := hx a ha
+    have := LogSinh.backward_forward ⟨loga, logb, xm⟩ a hadm' (hx a ha)
+    simpa [LogSinh.forward, guard, hd] using this
+
+/-- Yeo-Johnson: after any history the parameters satisfy `admissible` (so `backward_forward_near` /
+`forward_backward_near` apply to every reachable object) and a call is the closed formula at the current values -/
+theorem YeoJohnson.history (mininu minilam : ℝ) (base : Option ℝ) (o0 : TObj ℝ)
+    (h0 : mkObj .yeojohnson mininu minilam base = .ok o0) (ops : List (TOp ℝ)) :
+    ∃ p : YeoJohnson.Params ℝ, (o0.run ops).1.pvals = [some p.nu, some p.scale, some p.lam] ∧
+      YeoJohnson.admissible p ∧
+      ∀ m c xs, (o0.run ops).1.step (.call m c xs) = ((o0.run ops).1,
+        .values (applyM backwardCensored m (YeoJohnson.forward p) (YeoJohnson.backward p) (YeoJohnson.jacobian p) c xs)) := by
+  have hinv := TObj.runWith_inv backwardCensored ops o0 (mkObj_inv _ _ _ _ _ h0)
+  have hsp := TObj.runWith_spec backwardCensored ops o0
+  simp only [mkObj] at h0
+  cases h0
+  unfold TObj.run
+  generalize (TObj.runWith backwardCensored _ ops).1 = o at hinv hsp ⊢
+  obtain ⟨hcls, hps, hcs, -, -, -⟩ := hsp
+  obtain ⟨-, -, -, hpo, hco, -⟩ := hinv
+  simp only at hcls hps hcs
+  rw [hps] at hpo
+  rw [hcs] at hco
+  simp only [VSpec.Ok, noVec, okVals_cons, okVals_nil, okSlot_false] at hpo hco
+  obtain ⟨v, rest, hpv, ⟨nu, rfl, -⟩, v2, rest2, rfl, ⟨scale, rfl, hb2⟩, v3, rest3, rfl, ⟨lam, rfl, hb3⟩, rfl⟩ := hpo
+  refine ⟨⟨nu, scale, lam⟩, hpv, ?_, ?_⟩
+  · simp [inBounds] at hb2 hb3
+    exact ⟨hb2, hb3.1, hb3.2⟩
+  · intro m c xs
+    simp only [TObj.step, TObj.stepWith, TObj.evalWith, hcls, hpv, hco]
+
+/-- Sinh -/
+theorem Sinh.history (mininu minilam : ℝ) (base : Option ℝ) (o0 : TObj ℝ)
+    (h0 : mkObj .sinh mininu minilam base = .ok o0) (ops : List (TOp ℝ)) :
+    ∃ p : Sinh.Params ℝ, (o0.run ops).1.pvals = [some p.nu, some p.scale] ∧ Sinh.admissible p ∧
+      ∀ m c xs, (o0.run ops).1.step (.call m c xs) = ((o0.run ops).1,
+        .values (applyM backwardCensored m (Sinh.forward p) (Sinh.backward p) (Sinh.jacobian p) c xs)) := by
+  have hinv := TObj.runWith_inv backwardCensored ops o0 (mkObj_inv _ _ _ _ _ h0)
+  have hsp := TObj.runWith_spec backwardCensored ops o0
+  simp only [mkObj] at h0
+  cases h0
+  unfold TObj.run
+  generalize (TObj.runWith backwardCensored _ ops).1 = o at hinv hsp ⊢
+  obtain ⟨hcls, hps, hcs, -, -, -⟩ := hsp
+  obtain ⟨-, -, -, hpo, hco, -⟩ := hinv
+  simp only at hcls hps hcs
+  rw [hps] at hpo
+  rw [hcs] at hco
+  simp only [VSpec.Ok, noVec, okVals_cons, okVals_nil, okSlot_false] at hpo hco
+  obtain ⟨v, rest, hpv, ⟨nu, rfl, -⟩, v2, rest2, rfl, ⟨scale, rfl, hb2⟩, rfl⟩ := hpo
+  refine ⟨⟨nu, scale⟩, hpv, ?_, ?_⟩
+  · simp [inBounds] at hb2
+    exact hb2
+  · intro m c xs
+    simp only [TObj.step, TObj.stepWith, TObj.evalWith, hcls, hpv, hco]
+
+/-- Sinh on the object, any history, every array -/
+theorem Sinh.history_roundtrip (mininu minilam : ℝ) (base : Option ℝ) (o0 : TObj ℝ)
+    (h0 : mkObj .sinh mininu minilam base = .ok o0) (ops : List (TOp ℝ)) (xs : List ℝ) :
+    ∃ ys, (o0.run ops).1.step (.call .fwd 0 xs) = ((o0.run ops).1, .values (ys.map some)) ∧
+      (o0.run ops).1.step (.call .bwd 0 ys) = ((o0.run ops).1, .values (xs.map some)) := by
+  obtain ⟨p, -, hadm, hcall⟩ := Sinh.history mininu minilam base o0 h0 ops
+  refine ⟨xs.map (Sinh.fwd p), ?_, ?_⟩
+  · rw [hcall]; simp [applyM, onArray, Sinh.forward, List.map_map, Function.comp_def]
+  · rw [hcall]
+    simp only [applyM, onArray, List.map_map]
+    congr 2
+    apply List.map_congr_left
+    intro a _
+    have := Sinh.backward_forward p a hadm
+    simpa [Sinh.forward] using this
+
+/-- Logit, Log, Reciprocal, BoxCox2: the parameters stay inside the declared bounds (`mininu ≤ nu`, `minilam ≤ lam ≤ 3`,
+`-10 ≤ logdelta ≤ 10`) and a call is the closed formula at the current values, the object unchanged -/
+theorem Logit.history (mininu minilam : ℝ) (base : Option ℝ) (o0 : TObj ℝ)
+    (h0 : mkObj .logit mininu minilam base = .ok o0) (ops : List (TOp ℝ)) :
+    ∃ p : Logit.Params ℝ, (o0.run ops).1.pvals = [some p.lower, some p.logdelta] ∧ Logit.admissible p ∧
+      ∀ m c xs, (o0.run ops).1.step (.call m c xs) = ((o0.run ops).1,
+        .values (applyM backwardCensored m (Logit.forward p) (Logit.backward p) (Logit.jacobian p) c xs)) := by
+  have hinv := TObj.runWith_inv backwardCensored ops o0 (mkObj_inv _ _ _ _ _ h0)
+  have hsp := TObj.runWith_spec backwardCensored ops o0
+  simp only [mkObj] at h0
+  cases h0
+  unfold TObj.run
+  generalize (TObj.runWith backwardCensored _ ops).1 = o at hinv hsp ⊢
+  obtain ⟨hcls, hps, hcs, -, -, -⟩ := hsp
+  obtain ⟨-, -, -, hpo, hco, -⟩ := hinv
+  simp only at hcls hps hcs
+  rw [hps] at hpo
+  rw [hcs] at hco
+  simp only [VSpec.Ok, noVec, okVals_cons, okVals_nil, okSlot_false] at hpo hco
+  obtain ⟨v, rest, hpv, ⟨lower, rfl, -⟩, v2, rest2, rfl, ⟨ld, rfl, hb2⟩, rfl⟩ := hpo
+  refine ⟨⟨lower, ld⟩, hpv, ?_, ?_⟩
+  · simp [inBounds] at hb2
+    exact hb2
+  · intro m c xs
+    simp only [TObj.step, TObj.stepWith, TObj.evalWith, hcls, hpv, hco]
+
+theorem Log.history (mininu minilam : ℝ) (base : Option ℝ) (o0 : TObj ℝ)
+    (h0 : mkObj .log mininu minilam base = .ok o0) (ops : List (TOp ℝ)) :
+    (∀ b, base = some b → 0 < b) ∧
+    ∃ nu : ℝ, (o0.run ops).1.pvals = [some nu] ∧ Log.admissible ⟨nu, base, mininu⟩ ∧
+      ∀ m c xs, (o0.run ops).1.step (.call m c xs) = ((o0.run ops).1,
+        .values (applyM backwardCensored m (Log.forward ⟨nu, base, mininu⟩) (Log.backward ⟨nu, base, mininu⟩)
+          (Log.jacobian ⟨nu, base, mininu⟩) c xs)) := by
+  have hinv := TObj.runWith_inv backwardCensored ops o0 (mkObj_inv _ _ _ _ _ h0)
+  have hsp := TObj.runWith_spec backwardCensored ops o0
+  have hbase : (∀ b, base = some b → 0 < b) ∧ o0 = ⟨.log, ⟨[⟨"nu", some mininu, some mininu, none⟩], false⟩, noVec,
+      [some mininu], [], noVec, [], mininu, base⟩ := by
+    simp only [mkObj] at h0
+    cases base with
+    | none => cases h0; exact ⟨by simp, rfl⟩
+    | some b =>
+      simp only at h0
+      split_ifs at h0 with hb
+      cases h0
+      exact ⟨by intro b' hb'; cases hb'; exact not_le.mp hb, rfl⟩
+  obtain ⟨hpos, rfl⟩ := hbase
+  refine ⟨hpos, ?_⟩
+  unfold TObj.run
+  generalize (TObj.runWith backwardCensored _ ops).1 = o at hinv hsp ⊢
+  obtain ⟨hcls, hps, hcs, -, hmn, hbs⟩ := hsp
+  obtain ⟨-, -, -, hpo, hco, -⟩ := hinv
+  simp only at hcls hps hcs hmn hbs
+  rw [hps] at hpo
+  rw [hcs] at hco
+  simp only [VSpec.Ok, noVec, okVals_cons, okVals_nil, okSlot_false] at hpo hco
+  obtain ⟨v, rest, hpv, ⟨nu, rfl, hb⟩, rfl⟩ := hpo
+  refine ⟨nu, hpv, ?_, ?_⟩
+  · simp [inBounds] at hb
+    exact hb
+  · intro m c xs
+    simp only [TObj.step, TObj.stepWith, TObj.evalWith, hcls, hpv, hco, hmn, hbs]
+
+theorem Reciprocal.history (mininu minilam : ℝ) (base : Option ℝ) (o0 : TObj ℝ)
+    (h0 : mkObj .reciprocal mininu minilam base = .ok o0) (ops : List (TOp ℝ)) :
+    ∃ nu : ℝ, (o0.run ops).1.pvals = [some nu] ∧ Reciprocal.admissible ⟨nu, mininu⟩ ∧
+      ∀ m c xs, (o0.run ops).1.step (.call m c xs) = ((o0.run ops).1,
+        .values (applyM backwardCensored m (Reciprocal.forward ⟨nu, mininu⟩) (Reciprocal.backward ⟨nu, mininu⟩)
+          (Reciprocal.jacobian ⟨nu, mininu⟩) c xs)) := by
+  have hinv := TObj.runWith_inv backwardCensored ops o0 (mkObj_inv _ _ _ _ _ h0)
+  have hsp := TObj.runWith_spec backwardCensored ops o0
+  simp only [mkObj] at h0
+  cases h0
+  unfold TObj.run
+  generalize (TObj.runWith backwardCensored _ ops).1 = o at hinv hsp ⊢
+  obtain ⟨hcls, hps, hcs, -, hmn, -⟩ := hsp
+  obtain ⟨-, -, -, hpo, hco, -⟩ := hinv
+  simp only at hcls hps hcs hmn
+  rw [hps] at hpo
+  rw [hcs] at hco
+  simp only [VSpec.Ok, noVec, okVals_cons, okVals_nil, okSlot_false] at hpo hco
+  obtain ⟨v, rest, hpv, ⟨nu, rfl, hb⟩, rfl⟩ := hpo
+  refine ⟨nu, hpv, ?_, ?_⟩
+  · simp [inBounds] at hb
+    exact hb
+  · intro m c xs
+    simp only [TObj.step, TObj.stepWith, TObj.evalWith, hcls, hpv, hco, hmn]
+
+theorem BoxCox2.history (mininu minilam : ℝ) (base : Option ℝ) (o0 : TObj ℝ)
+    (h0 : mkObj .boxcox2 mininu minilam base = .ok o0) (ops : List (TOp ℝ)) :
+    ∃ nu lam : ℝ, (o0.run ops).1.pvals = [some nu, some lam] ∧ mininu ≤ nu ∧ minilam ≤ lam ∧ lam ≤ 3 ∧
+      ∀ m c xs, (o0.run ops).1.step (.call m c xs) = ((o0.run ops).1,
+        .values (applyM backwardCensored m (BoxCox2.forward ⟨nu, lam, mininu⟩) (BoxCox2.backward ⟨nu, lam, mininu⟩)
+          (BoxCox2.jacobian ⟨nu, lam, mininu⟩) c xs)) := by
+  have hinv := TObj.runWith_inv backwardCensored ops o0 (mkObj_inv _ _ _ _ _ h0)
+  have hsp := TObj.runWith_spec backwardCensored ops o0
+  simp only [mkObj] at h0
+  split_ifs at h0 with hbb
+  cases h0
+  unfold TObj.run
+  generalize (TObj.runWith backwardCensored _ ops).1 = o at hinv hsp ⊢
+  obtain ⟨hcls, hps, hcs, -, hmn, -⟩ := hsp
+  obtain ⟨-, -, -, hpo, hco, -⟩ := hinv
+  simp only at hcls hps hcs hmn
+  rw [hps] at hpo
+  rw [hcs] at hco
+  simp only [VSpec.Ok, noVec, bc2Spec, okVals_cons, okVals_nil, okSlot_false] at hpo hco
+  obtain ⟨v, rest, hpv, ⟨nu, rfl, hb1⟩, v2, rest2, rfl, ⟨lam, rfl, hb2⟩, rfl⟩ := hpo
+  simp [inBounds] at hb1 hb2
+  refine ⟨nu, lam, hpv, hb1, hb2.1, by have := hb2.2; norm_num at this; exact this, ?_⟩
+  intro m c xs
+  simp only [TObj.step, TObj.stepWith, TObj.evalWith, hcls, hpv, hco, hmn]
+
+/-- BoxCox2 on the object, any history: arrays with `x + nu > 0` are recovered -/
+theorem BoxCox2.history_roundtrip (mininu minilam : ℝ) (base : Option ℝ) (o0 : TObj ℝ)
+    (h0 : mkObj .boxcox2 mininu minilam base = .ok o0) (ops : List (TOp ℝ)) (xs : List ℝ) (nu lam : ℝ)
+    (hp : (o0.run ops).1.pvals = [some nu, some lam]) (hx : ∀ x ∈ xs, 0 < x + nu) :
+    ∃ ys, (o0.run ops).1.step (.call .fwd 0 xs) = ((o0.run ops).1, .values (ys.map some)) ∧
+      (o0.run ops).1.step (.call .bwd 0 ys) = ((o0.run ops).1, .values (xs.map some)) := by
+  obtain ⟨nu', lam', hpv, -, -, -, hcall⟩ := BoxCox2.history mininu minilam base o0 h0 ops
+  rw [hp] at hpv
+  simp only [List.cons.injEq, Option.some.injEq, and_true] at hpv
+  obtain ⟨rfl, rfl⟩ := hpv
+  refine ⟨xs.map (BoxCox2.fwd ⟨nu, lam, mininu⟩), ?_, ?_⟩
+  · rw [hcall]; simp [applyM, onArray, BoxCox2.forward, List.map_map, Function.comp_def]
+  · rw [hcall]
+    simp only [applyM, onArray, List.map_map]
+    congr 2
+    apply List.map_congr_left
+    intro a ha
+    simp only [Function.comp, BoxCox2.backward]
+    rw [BoxCox2.bwd_fwd _ (hx a ha)]
+
+/-- BoxCox1lam: the call first assigns the inner BoxCox2's parameter vector; on every reachable object that assignment
+is accepted and stores `[nu, lam]` unchanged (they are already inside the inner bounds), so the result is BoxCox2's at the
+current `nu`, `lam` — whatever the inner object held before -/
+theorem BoxCox1lam.history (mininu minilam : ℝ) (base : Option ℝ) (o0 : TObj ℝ)
+    (h0 : mkObj .boxcox1lam mininu minilam base = .ok o0) (ops : List (TOp ℝ)) :
+    ∃ lam : ℝ, ∃ nuC : Option ℝ, (o0.run ops).1.pvals = [some lam] ∧ (o0.run ops).1.cvals = [nuC] ∧
+      minilam ≤ lam ∧ lam ≤ 3 ∧ (∀ nu, nuC = some nu → mininu ≤ nu) ∧
+      ∀ m c xs, (o0.run ops).1.step (.call m c xs) =
+        match nuC with
+        | none => ((o0.run ops).1, Reply.raised .nuUnset)
+        | some nu => ({ (o0.run ops).1 with ivals := [some nu, some lam] },
+            .values (applyM backwardCensored m (BoxCox2.forward ⟨nu, lam, mininu⟩) (BoxCox2.backward ⟨nu, lam, mininu⟩)
+              (BoxCox2.jacobian ⟨nu, lam, mininu⟩) c xs)) := by
+  have hinv := TObj.runWith_inv backwardCensored ops o0 (mkObj_inv _ _ _ _ _ h0)
+  have hsp := TObj.runWith_spec backwardCensored ops o0
+  simp only [mkObj] at h0
+  split_ifs at h0 with hb
+  cases h0
+  unfold TObj.run
+  generalize (TObj.runWith backwardCensored _ ops).1 = o at hinv hsp ⊢
+  obtain ⟨hcls, hps, hcs, his, hmn, -⟩ := hsp
+  obtain ⟨-, -, -, hpo, hco, -⟩ := hinv
+  simp only at hcls hps hcs his hmn
+  rw [hps] at hpo
+  rw [hcs] at hco
+  simp only [VSpec.Ok, okVals_cons, okVals_nil, okSlot_false, okSlot_true] at hpo hco
+  obtain ⟨v, rest, hpv, ⟨lam, rfl, hb1⟩, rfl⟩ := hpo
+  obtain ⟨nuC, rest', hcv, hnu, rfl⟩ := hco
+  simp [inBounds] at hb1
+  have hl3 : lam ≤ 3 := by have := hb1.2; norm_num at this; exact this
+  refine ⟨lam, nuC, hpv, hcv, hb1.1, hl3, ?_, ?_⟩
+  · intro nu hnu'
+    have := hnu nu hnu'
+    simpa [inBounds] using this
+  · intro m c xs
+    cases nuC with
+    | none => simp only [TObj.step, TObj.stepWith, TObj.evalWith, hcls, hpv, hcv]
+    | some nu =>
+      have hn := hnu nu rfl
+      simp [inBounds] at hn
+      have hset : o.ispec.setValues [some nu, some lam] = .ok [some nu, some lam] := by
+        rw [his]
+        apply VSpec.setValues_of_ok
+        · simp [VSpec.Ok, bc2Spec, okVals, okSlot, inBounds]
+          exact ⟨hn, hb1.1, hb1.2⟩
+        · simp
+      simp only [TObj.step, TObj.stepWith, TObj.evalWith, hcls, hpv, hcv, hset, hmn]
+
+theorem BoxCox1nu.history (mininu minilam : ℝ) (base : Option ℝ) (o0 : TObj ℝ)
+    (h0 : mkObj .boxcox1nu mininu minilam base = .ok o0) (ops : List (TOp ℝ)) :
+    ∃ nu : ℝ, ∃ lamC : Option ℝ, (o0.run ops).1.pvals = [some nu] ∧ (o0.run ops).1.cvals = [lamC] ∧
+      mininu ≤ nu ∧ (∀ lam, lamC = some lam → minilam ≤ lam ∧ lam ≤ 3) ∧
+      ∀ m c xs, (o0.run ops).1.step (.call m c xs) =
+        match lamC with
+        | none => ((o0.run ops).1, Reply.raised .lamUnset)
+        | some lam => ({ (o0.run ops).1 with ivals := [some nu, some lam] },
+            .values (applyM backwardCensored m (BoxCox2.forward ⟨nu, lam, mininu⟩) (BoxCox2.backward ⟨nu, lam, mininu⟩)
+              (BoxCox2.jacobian ⟨nu, lam, mininu⟩) c xs)) := by
+  have hinv := TObj.runWith_inv backwardCensored ops o0 (mkObj_inv _ _ _ _ _ h0)
+  have hsp := TObj.runWith_spec backwardCensored ops o0
+  simp only [mkObj] at h0
+  split_ifs at h0 with hb
+  cases h0
+  unfold TObj.run
+  generalize (TObj.runWith backwardCensored _ ops).1 = o at hinv hsp ⊢
+  obtain ⟨hcls, hps, hcs, his, hmn, -⟩ := hsp
+  obtain ⟨-, -, -, hpo, hco, -⟩ := hinv
+  simp only at hcls hps hcs his hmn
+  rw [hps] at hpo
+  rw [hcs] at hco
+  simp only [VSpec.Ok, okVals_cons, okVals_nil, okSlot_false, okSlot_true] at hpo hco
+  obtain ⟨v, rest, hpv, ⟨nu, rfl, hb1⟩, rfl⟩ := hpo
+  obtain ⟨lamC, rest', hcv, hlam, rfl⟩ := hco
+  simp [inBounds] at hb1
+  have hl : ∀ lam, lamC = some lam → minilam ≤ lam ∧ lam ≤ 3 := by
+    intro lam hl'
+    have := hlam lam hl'
+    simp [inBounds] at this
+    exact ⟨this.1, by have := this.2; norm_num at this; exact this⟩
+  refine ⟨nu, lamC, hpv, hcv, hb1, hl, ?_⟩
+  intro m c xs
+  cases lamC with
+  | none => simp only [TObj.step, TObj.stepWith, TObj.evalWith, hcls, hpv, hcv]
+  | some lam =>
+    have hn := hlam lam rfl
+    simp [inBounds] at hn
+    have hset : o.ispec.setValues [some nu, some lam] = .ok [some nu, some lam] := by
+      rw [his]
+      apply VSpec.setValues_of_ok
+      · simp [VSpec.Ok, bc2Spec, okVals, okSlot, inBounds]
+        exact ⟨hb1, hn.1, hn.2⟩
+      · simp
+    simp only [TObj.step, TObj.stepWith, TObj.evalWith, hcls, hpv, hcv, hset, hmn]
+
+theorem BoxCox2sym.history (mininu minilam : ℝ) (base : Option ℝ) (o0 : TObj ℝ)
+    (h0 : mkObj .boxcox2sym mininu minilam base = .ok o0) (ops : List (TOp ℝ)) :
+    ∃ nu lam : ℝ, (o0.run ops).1.pvals = [some nu, some lam] ∧ mininu ≤ nu ∧ minilam ≤ lam ∧ lam ≤ 3 ∧
+      ∀ m c xs, (o0.run ops).1.step (.call m c xs) =
+        ({ (o0.run ops).1 with ivals := [some nu, some lam] },
+          .values (applyM backwardCensored m (BoxCox2sym.forward ⟨nu, lam, mininu⟩) (BoxCox2sym.backward ⟨nu, lam, mininu⟩)
+            (BoxCox2sym.jacobian ⟨nu, lam, mininu⟩) c xs)) := by
+  have hinv := TObj.runWith_inv backwardCensored ops o0 (mkObj_inv _ _ _ _ _ h0)
+  have hsp := TObj.runWith_spec backwardCensored ops o0
+  simp only [mkObj] at h0
+  split_ifs at h0 with hb
+  cases h0
+  unfold TObj.run
+  generalize (TObj.runWith backwardCensored _ ops).1 = o at hinv hsp ⊢
+  obtain ⟨hcls, hps, hcs, his, hmn, -⟩ := hsp
+  obtain ⟨-, -, -, hpo, hco, -⟩ := hinv
+  simp only at hcls hps hcs his hmn
+  rw [hps] at hpo
+  rw [hcs] at hco
+  simp only [VSpec.Ok, noVec, bc2Spec, okVals_cons, okVals_nil, okSlot_false] at hpo hco
+  obtain ⟨v, rest, hpv, ⟨nu, rfl, hb1⟩, v2, rest2, rfl, ⟨lam, rfl, hb2⟩, rfl⟩ := hpo
+  simp [inBounds] at hb1 hb2
+  refine ⟨nu, lam, hpv, hb1, hb2.1, by have := hb2.2; norm_num at this; exact this, ?_⟩
+  intro m c xs
+  have hset : o.ispec.setValues [some nu, some lam] = .ok [some nu, some lam] := by
+    rw [his]
+    apply VSpec.setValues_of_ok
+    · simp [VSpec.Ok, bc2Spec, okVals, okSlot, inBounds]
+      exact ⟨hb1, hb2.1, hb2.2⟩
+    · simp
+  simp only [TObj.step, TObj.stepWith, TObj.evalWith, hcls, hpv, hco, hset, hmn]
+
+/-- BoxCox1lam on the object, ANY history (refused assignments, stale inner state, calls in any order): arrays with
+`x + nu > 0` are recovered -/
+theorem BoxCox1lam.history_roundtrip (mininu minilam : ℝ) (base : Option ℝ) (o0 : TObj ℝ)
+    (h0 : mkObj .boxcox1lam mininu minilam base = .ok o0) (ops : List (TOp ℝ)) (xs : List ℝ) (lam nu : ℝ)
+    (hp : (o0.run ops).1.pvals = [some lam]) (hc : (o0.run ops).1.cvals = [some nu]) (hx : ∀ x ∈ xs, 0 < x + nu) :
+    ∃ ys, ((o0.run ops).1.step (.call .fwd 0 xs)).2 = .values (ys.map some) ∧
+      (((o0.run ops).1.step (.call .fwd 0 xs)).1.step (.call .bwd 0 ys)).2 = .values (xs.map some) := by
+  obtain ⟨lam', nuC, hpv, hcv, -, -, -, hcall⟩ := BoxCox1lam.history mininu minilam base o0 h0 ops
+  rw [hp] at hpv; rw [hc] at hcv
+  simp only [List.cons.injEq, Option.some.injEq, and_true] at hpv hcv
+  subst hpv; subst hcv
+  -- the object after the forward call is again reachable: one more operation of the history
+  obtain ⟨lam2, nuC2, hpv2, hcv2, -, -, -, hcall2⟩ :=
+    BoxCox1lam.history mininu minilam base o0 h0 (ops ++ [.call .fwd 0 xs])
+  have hrun : (o0.run (ops ++ [.call .fwd 0 xs])).1 = ((o0.run ops).1.step (.call .fwd 0 xs)).1 := by
+    rw [TObj.run_append]
+    simp [TObj.run, TObj.runWith, TObj.step]
+  rw [hrun] at hpv2 hcv2 hcall2
+  have hf := TObj.call_frame (o0.run ops).1 .fwd 0 xs
+  rw [hf.1, hp] at hpv2
+  rw [hf.2, hc] at hcv2
+  simp only [List.cons.injEq, Option.some.injEq, and_true] at hpv2 hcv2
+  subst hpv2; subst hcv2
+  refine ⟨xs.map (BoxCox2.fwd ⟨nu, lam, mininu⟩), ?_, ?_⟩
+  · rw [hcall]; simp [applyM, onArray, BoxCox2.forward, List.map_map, Function.comp_def]
+  · rw [hcall2]
+    simp only [applyM, onArray, List.map_map]
+    congr 1
+    apply List.map_congr_left
+    intro a ha
+    simp only [Function.comp, BoxCox2.backward]
+    rw [BoxCox2.bwd_fwd _ (hx a ha)]
+
+/-- reading back: after an accepted `t[k] = x` with `x` a number, `t[k]` is `x` clipped to the bounds of `k` — `x` itself
+when it is inside them — and every other key reads what it read before -/
+theorem TObj.getItem_setItem (o : TObj ℝ) (k : String) (x : ℝ) (h : (o.step (.setItem k (some x))).2 = .done) :
+    (∃ lo hi, (o.step (.setItem k (some x))).1.getItem k = .ok (some (clipv lo hi x))) ∧
+    ∀ k', k' ≠ k → (o.step (.setItem k (some x))).1.getItem k' = o.getItem k' := by
+  have hP : ∀ (sp : VSpec ℝ) (vals l : List (Option ℝ)), sp.setName vals k (some x) = .ok l →
+      (∃ lo hi, sp.getName l k = .ok (some (clipv lo hi x))) ∧ ∀ k', k' ≠ k → sp.getName l k' = sp.getName vals k' := by
+    intro sp vals l hs
+    unfold VSpec.setName at hs
+    split_ifs at hs with h1 h2
+    rcases hr : setAt sp.slots vals k (some x) with _ | l'
+    · simp [hr] at hs
+    · simp only [hr, Except.ok.injEq] at hs
+      subst hs
+      obtain ⟨⟨s, _, _, hg⟩, hf⟩ := setAt_get k x sp.slots vals l' hr
+      refine ⟨⟨s.lo, s.hi, ?_⟩, ?_⟩
+      · unfold VSpec.getName; rw [if_neg h1, hg]
+      · intro k' hk'
+        unfold VSpec.getName
+        rw [hf k' hk']
+  simp only [TObj.step, TObj.stepWith] at h ⊢
+  by_cases hc : o.cspec.slots.isEmpty = true
+  · simp only [hc, if_true] at h ⊢
+    rcases hs : o.pspec.setName o.pvals k (some x) with e | l
+    · simp [TObj.setP, assign, hs] at h
+    · obtain ⟨h1, h2⟩ := hP _ _ _ hs
+      simp only [TObj.setP, assign, TObj.getItem, hc, if_true]
+      exact ⟨h1, h2⟩
+  · simp only [hc, Bool.false_eq_true, if_false] at h ⊢
+    by_cases hp : o.pspec.names.contains k = true
+    · simp only [hp, if_true] at h ⊢
+      rcases hs : o.pspec.setName o.pvals k (some x) with e | l
+      · simp [TObj.setP, assign, hs] at h
+      · obtain ⟨h1, h2⟩ := hP _ _ _ hs
+        simp only [TObj.setP, assign, TObj.getItem, hc, Bool.false_eq_true, if_false, hp, if_true]
+        refine ⟨h1, ?_⟩
+        intro k' hk'
+        by_cases hp' : o.pspec.names.contains k' = true
+        · simp only [hp', if_true]; exact h2 k' hk'
+        · simp only [hp', Bool.false_eq_true, if_false]
+    · simp only [hp, Bool.false_eq_true, if_false] at h ⊢
+      rcases hs : o.cspec.setName o.cvals k (some x) with e | l
+      · simp [TObj.setC, assign, hs] at h
+      · obtain ⟨h1, h2⟩ := hP _ _ _ hs
+        simp only [TObj.setC, assign, TObj.getItem, hc, Bool.false_eq_true, if_false, hp]
+        refine ⟨h1, ?_⟩
+        intro k' hk'
+        by_cases hp' : o.pspec.names.contains k' = true
+        · simp only [hp', if_true]
+        · simp only [hp', Bool.false_eq_true, if_false]; exact h2 k' hk'
+
+
+/-! #### get_transform -/
+
+/-- `get_transform(name, **kwargs)` is the constructor followed by the attribute assignments `trans.k = v` in keyword
+order (keywords that name nothing are ignored by both), none of which was refused -/
+theorem applyKw_eq_run : ∀ (kws : List (String × Option ℝ)) (o o' : TObj ℝ), applyKw o kws = .ok o' →
+    o.run (kws.map fun kv => TOp.setAttr kv.1 kv.2) = (o', kws.map fun _ => Reply.done)
+  | [], o, o', h => by simp [applyKw] at h; subst h; simp [TObj.run, TObj.runWith]
+  | (k, v) :: kws, o, o', h => by
+    simp only [applyKw] at h
+    simp only [List.map_cons, TObj.run, TObj.runWith, TObj.stepWith]
+    split_ifs at h ⊢ with h1 h2
+    · rcases hs : o.pspec.setName o.pvals k v with e | l
+      · simp [hs] at h
+      · simp only [hs] at h
+        have ih := applyKw_eq_run kws _ o' h
+        simp only [TObj.run] at ih
+        simp only [TObj.setP, assign, ih]
+    · rcases hs : o.cspec.setName o.cvals k v with e | l
+      · simp [hs] at h
+      · simp only [hs] at h
+        have ih := applyKw_eq_run kws _ o' h
+        simp only [TObj.run] at ih
+        simp only [TObj.setC, assign, ih]
+    · have ih := applyKw_eq_run kws o o' h
+      simp only [TObj.run] at ih
+      simp only [ih]
+
+theorem getTransform_eq_run (name : String) (mininu minilam : ℝ) (base : Option ℝ) (kws : List (String × Option ℝ))
+    (o : TObj ℝ) (h : getTransform name mininu minilam base kws = .ok o) :
+    ∃ c o0, Cls.ofName? name = some c ∧ mkObj c mininu minilam base = .ok o0 ∧
+      o0.run (kws.map fun kv => TOp.setAttr kv.1 kv.2) = (o, kws.map fun _ => Reply.done) ∧ o.Inv := by
+  unfold getTransform at h
+  rcases hc : Cls.ofName? name with _ | c
+  · simp [hc] at h
+  · simp only [hc] at h
+    rcases hm : mkObj c mininu minilam base with e | o0
+    · simp [hm] at h
+    · simp only [hm] at h
+      have hr := applyKw_eq_run kws o0 o h
+      refine ⟨c, o0, rfl, hm, hr, ?_⟩
+      have := (TObj.run_inv o0 (kws.map fun kv => TOp.setAttr kv.1 kv.2) (mkObj_inv _ _ _ _ _ hm)).1
+      rw [hr] at this
+      exact this
+
+/-- the object model and the keyword catalogue of Model/C01 name the same classes, in the same order, and every class
+of the catalogue is found by its name -/
+theorem Cls.names_eq_catalogue : Cls.all.map Cls.name = catalogue.map (·.name) ∧
+    ∀ c ∈ Cls.all, Cls.ofName? c.name = some c := by decide
+
+/-- ... and the same parameters and constants -/
+theorem mkObj_names : ∀ c ∈ Cls.all, ∀ spec ∈ catalogue, spec.name = c.name →
+    ∀ (o : TObj ℝ), mkObj c (1e-10 : ℝ) 0 none = .ok o → o.pspec.names = spec.params ∧ o.cspec.names = spec.constants := by
+  intro c hc spec hs hn o ho
+  have hb : lamBoundsOk (0 : ℝ) = true := by
+    unfold lamBoundsOk eps; norm_num
+  simp only [Cls.all, List.mem_cons, List.not_mem_nil, or_false] at hc
+  simp only [catalogue, List.mem_cons, List.not_mem_nil, or_false] at hs
+  rcases hc with rfl | rfl | rfl | rfl | rfl | rfl | rfl | rfl | rfl | rfl | rfl | rfl | rfl <;>
+    rcases hs with rfl | rfl | rfl | rfl | rfl | rfl | rfl | rfl | rfl | rfl | rfl | rfl | rfl <;>
+    simp only [Cls.name] at hn <;> (try exact absurd hn (by decide)) <;>
+    simp only [mkObj, hb, if_true] at ho <;> cases ho <;> simp [VSpec.names, bc2Spec, noVec]
+
+/-! ### hypotheses the property text does not state are necessary (counterexamples in the model's arithmetic) -/
+
+/-- `Log.bf p ≠ 0` cannot be dropped: base 1 (`log base = 0`; accepted by the constructor, which only refuses
+`base ≤ 0`) is not a logarithm base — the forward values collapse and `x` is not recovered -/
+theorem Log.base_one_counterexample : ∃ (p : Log.Params ℝ) (x : ℝ), p.base = some 1 ∧ Log.admissible p ∧ Log.dom p x ∧
+    Log.bf p = 0 ∧ (Log.forward p x).bind (Log.backward p) ≠ some x := by
+  refine ⟨⟨1, some 1, 1e-10⟩, 1, rfl, ?_, ?_, ?_, ?_⟩
+  · simp only [Log.admissible]; norm_num
+  · simp only [Log.dom]; norm_num
+  · simp [Log.bf]
+  · simp [Log.forward, Log.backward, Log.fwd, Log.bwd, Log.bf]
+
+/-- `nu > 0` cannot be dropped for BoxCox2sym on the logarithm branch: at `nu = 0` there is no `BC(0)` and `x = 1` is not
+recovered -/
+theorem BoxCox2sym.nu_zero_counterexample : ∃ (p : BoxCox2sym.Params ℝ) (x : ℝ), p.nu = 0 ∧ lamBig p.lam = false ∧
+    (BoxCox2sym.forward p x).bind (BoxCox2sym.backward p) ≠ some x := by
+  have hl : lamBig (0 : ℝ) = false := by
+    unfold lamBig; rw [decide_eq_false_iff_not, absv_eq, abs_zero]; exact not_lt.mpr eps_pos.le
+  refine ⟨⟨0, 0, 0⟩, 1, rfl, hl, ?_⟩
+  have h1 : sign (1 : ℝ) = 1 := sign_pos one_pos
+  simp [BoxCox2sym.forward, BoxCox2sym.backward, BoxCox2sym.fwd, BoxCox2sym.bwd, BoxCox2sym.y0, BoxCox2.fwd,
+    BoxCox2sym.toBC, hl, h1, absv_eq, sign_zero]
+
+
+section Rounded
+open Rd
+/-! ### floating point: exact statements that survive rounding (`Rd M`, Lemmas/C01Rnd: every operation of the model text
+followed by an arbitrary monotone rounding with `rnd 0 = 0`, `rnd 1 = 1`, `rnd (-x) = -rnd x`; any `exp ≥ 0`) -/
+
+/-- Softmax.backward in floating point returns entries in `[0, 1]` -/
+theorem Softmax.rounded_backward_range (M : FP) (ys : List (Rd M)) :
+    ∀ x ∈ Softmax.bwdRow ys, 0 ≤ x.val ∧ x.val ≤ 1 := Softmax.bwdRow_rd_range ys
+
+/-- hence `forward(backward(y))` is never refused for a negative entry, whatever the rounding errors: only the row-sum
+test (`codom`) can refuse a backward image -/
+theorem Softmax.rounded_forward_backward_not_negative (M : FP) (ys : List (Rd M)) :
+    Softmax.anyNeg (Softmax.bwdRow ys) = false ∧ (Softmax.backward ys >>= Softmax.forward) ≠ .error .negative := by
+  have h : Softmax.anyNeg (Softmax.bwdRow ys) = false := by
+    unfold Softmax.anyNeg
+    rw [List.any_eq_false]
+    intro x hx
+    have := (Softmax.bwdRow_rd_range ys x hx).1
+    simp only [decide_eq_true_eq, Rd.lt_def, Rd.zero_val, not_lt]
+    exact this
+  refine ⟨h, ?_⟩
+  show Softmax.forward (Softmax.bwdRow ys) ≠ _
+  unfold Softmax.forward
+  rw [h]
+  simp only [Bool.false_eq_true, if_false]
+  split_ifs <;> simp
+
+/-- BoxCox2sym in floating point: `0` is mapped to `0` exactly in both directions, and both directions are exactly odd
+(`sign`, `abs` and the multiplication by `±1` commit no rounding error) -/
+theorem BoxCox2sym.rounded_zero (M : FP) (p : BoxCox2sym.Params (Rd M)) :
+    (BoxCox2sym.fwd p 0).val = 0 ∧ (BoxCox2sym.bwd p 0).val = 0 := by
+  have hs : sign (0 : Rd M) = 0 := by
+    unfold sign
+    rw [if_neg (by simp [Rd.lt_def]), if_neg (by simp [Rd.lt_def])]
+  constructor
+  · simp only [BoxCox2sym.fwd, hs, Rd.mul_val, Rd.zero_val, zero_mul, M.rnd_zero]
+  · simp only [BoxCox2sym.bwd, hs, Rd.mul_val, Rd.zero_val, zero_mul, M.rnd_zero]
+
+theorem BoxCox2sym.rounded_odd (M : FP) (p : BoxCox2sym.Params (Rd M)) (x : Rd M) :
+    (BoxCox2sym.fwd p (-x)).val = -(BoxCox2sym.fwd p x).val ∧ (BoxCox2sym.bwd p (-x)).val = -(BoxCox2sym.bwd p x).val := by
+  have habs : absv (-x) = absv x := by
+    unfold absv
+    rcases lt_trichotomy x.val 0 with h | h | h
+    · rw [if_neg (by simp [Rd.lt_def]; linarith), if_pos (by simp [Rd.lt_def]; exact h)]
+    · have : x = ⟨0⟩ := by cases x; simp_all
+      subst this
+      rw [if_neg (by simp [Rd.lt_def]), if_neg (by simp [Rd.lt_def])]
+      show (⟨-0⟩ : Rd M) = ⟨0⟩
+      simp
+    · rw [if_pos (by simp [Rd.lt_def]; exact h), if_neg (by simp [Rd.lt_def]; linarith)]
+      show (⟨- -x.val⟩ : Rd M) = x
+      cases x; simp
+  have hsign : (sign (-x)).val = -(sign x).val := by
+    unfold sign
+    rcases lt_trichotomy x.val 0 with h | h | h
+    · rw [if_pos (by simp [Rd.lt_def]; exact h), if_neg (by simp [Rd.lt_def]; linarith), if_pos (by simp [Rd.lt_def]; exact h)]
+      simp
+    · rw [if_neg (by simp [Rd.lt_def, h]), if_neg (by simp [Rd.lt_def, h]), if_neg (by simp [Rd.lt_def, h]),
+        if_neg (by simp [Rd.lt_def, h])]
+      simp
+    · rw [if_neg (by simp [Rd.lt_def]; linarith), if_pos (by simp [Rd.lt_def]; exact h), if_pos (by simp [Rd.lt_def]; exact h)]
+      simp
+  constructor
+  · simp only [BoxCox2sym.fwd, habs, Rd.mul_val, hsign, neg_mul, M.rnd_neg]
+  · simp only [BoxCox2sym.bwd, habs, Rd.mul_val, hsign, neg_mul, M.rnd_neg]
+
+/-- `backward_censored(y, censor) ≥ censor` in floating point, for any transform (any `forward`, `backward`) -/
+theorem backwardCensored_ge_rounded (M : FP) (f b : Rd M → Option (Rd M)) (y c r : Rd M)
+    (h : backwardCensored f b y c = some r) : c.val ≤ r.val := by
+  unfold backwardCensored at h
+  simp only [Option.map_eq_some_iff] at h
+  obtain ⟨v, _, rfl⟩ := h
+  unfold maxv
+  split_ifs with hlt
+  · exact le_refl _
+  · exact not_lt.mp hlt
+
+noncomputable example : FP := FP.exact
+
+end Rounded
+
 /-! ### floating point (outside the proofs) -/
 
 /-- what the property says about the float64 code, for one class (BoxCox2 shown; the other classes are analogous):
@@ -1186,5 +2167,48 @@ example : Sinh.admissible (⟨-2, 1e-10⟩ : Sinh.Params ℝ) := by simp only [S
 example : Manly.admissible (⟨0, 2⟩ : Manly.Params ℝ) ∧ Manly.admissible (⟨-5, 1e-10⟩ : Manly.Params ℝ) := by
   simp only [Manly.admissible, eps]; norm_num
 example : Manly.codom (⟨0.5, 2⟩ : Manly.Params ℝ) 1 := by intro _; norm_num
+
+
+/-! non-vacuity of the object theorems: a constructed object, an accepted assignment that is clipped, refused ones -/
+example : ∃ o : TObj ℝ, mkObj .manly 1e-10 0 none = .ok o := ⟨_, rfl⟩
+example : lamBoundsOk (0 : ℝ) = true ∧ lamBoundsOk (-3 : ℝ) = true ∧ lamBoundsOk (1 : ℝ) = true ∧
+    lamBoundsOk (-3.5 : ℝ) = false ∧ lamBoundsOk (1.5 : ℝ) = false := by
+  refine ⟨?_, ?_, ?_, ?_, ?_⟩ <;> unfold lamBoundsOk eps <;> norm_num
+/-- BoxCox2 with default options: `params.values = [nan, 0.2]` and `lam = nan` are refused, a vector of the wrong length too;
+`lam = 7` is accepted and stored as 3; `t["foo"] = 1` is refused, `t.foo = 1` is an ordinary attribute -/
+example : ∀ o : TObj ℝ, mkObj .boxcox2 1e-10 0 none = .ok o →
+    (o.step (.setPValues [none, some 0.2])).2 = .rejected .nanValue ∧
+    (o.step (.setAttr "lam" none)).2 = .rejected .nanValue ∧
+    (o.step (.setPValues [some 0.5])).2 = .rejected .badLength ∧
+    (o.step (.setItem "foo" (some 1))).2 = .rejected .unknownKey ∧
+    (o.step (.setAttr "foo" (some 1))) = (o, .done) ∧
+    (o.step (.setAttr "lam" (some 7))).1.pvals = [some 1e-10, some 3.0] := by
+  intro o ho
+  have hb : lamBoundsOk (0 : ℝ) = true := by unfold lamBoundsOk eps; norm_num
+  simp only [mkObj, hb, if_true, Except.ok.injEq] at ho
+  subst ho
+  refine ⟨?_, ?_, ?_, ?_, ?_, ?_⟩ <;>
+    simp [TObj.step, TObj.stepWith, VSpec.setValues, VSpec.setName, VSpec.names, bc2Spec, TObj.setP, assign,
+      noVec, setAt, clipOpt, clipv]
+  norm_num
+/-- the hypotheses of `BoxCox1lam.history_roundtrip` are met: default options, `t.nu = 0.5`, then a refused `lam = NaN` -/
+example : ∀ o : TObj ℝ, mkObj .boxcox1lam 1e-10 0 none = .ok o →
+    (o.run [.setAttr "nu" (some 0.5), .setAttr "lam" none]).1.pvals = [some 1] ∧
+    (o.run [.setAttr "nu" (some 0.5), .setAttr "lam" none]).1.cvals = [some 0.5] ∧ ∀ x ∈ [(1 : ℝ)], 0 < x + 0.5 := by
+  intro o ho
+  have hb : lamBoundsOk (0 : ℝ) = true := by unfold lamBoundsOk eps; norm_num
+  simp only [mkObj, hb, if_true, Except.ok.injEq] at ho
+  subst ho
+  refine ⟨?_, ?_, by intro x hx; simp at hx; subst hx; norm_num⟩ <;>
+    simp [TObj.run, TObj.runWith, TObj.stepWith, VSpec.setName, VSpec.names, TObj.setP, TObj.setC, assign, setAt,
+      clipOpt, clipv] <;> norm_num
+/-- a history with a refused assignment in the middle (Manly: set xmax, refuse lam = NaN, call) -/
+example : ∀ o : TObj ℝ, mkObj .manly 1e-10 0 none = .ok o →
+    ((o.run [.setAttr "xmax" (some 2), .setPValues [none], .call .fwd 0 [1]]).1.pvals = [some 0.1]) := by
+  intro o ho
+  simp only [mkObj, Except.ok.injEq] at ho
+  subst ho
+  simp [TObj.run, TObj.runWith, TObj.stepWith, TObj.evalWith, VSpec.setValues, VSpec.setName, VSpec.names, TObj.setP,
+    TObj.setC, assign, setAt, clipOpt, clipv, eps]
 
 end HydroVerif.C01
